@@ -25,11 +25,13 @@ MANIFEST = {
     "note": "Trusted: Lean kernel (+propext, Classical.choice, Quot.sound), the AST translator, the tensor plumbing of the model "
             "(row-major broadcasting, alongAxis sums, unsqueeze: validated by correspondence, not proved), torch elementwise "
             "float32 arithmetic being exact on the integer / dyadic probe set, torch.mm/bmm being the real matrix product. "
-            "Partial: floating-point range. Theorems are over R; the naive formulas square their operands, so for |b| >~ 1.8e19 "
-            "complex_division returns NaN and for |b| <~ 1e-23 it returns 0 although b != 0, and modulus / rss overflow to inf or "
-            "underflow to 0 — the oracle probes these and records them as notes (see evidence `notes`), it does not count them "
-            "as violations; inside the range where no intermediate square leaves float32 the oracle requires agreement with "
-            "native complex64 arithmetic.",
+            "Floating-point range: the theorems are over R; the float32 formulas square their operands, so on the current "
+            "tree complex_division / modulus / root_sum_of_squares return nan / inf / 0 / inaccurate values for ordinary float32 "
+            "operands whose exact result is an ordinary float32 number (|b| >~ 1.8e19 or <~ 1e-19). The oracle reports these "
+            "with the stable keys float-range:<helper>:<class> (12 fixed, seed-independent probes; listed as known findings); "
+            "complex_multiplication / complex_dot_product / complex_mm / expand / reduce show no such deviation. Inside the "
+            "range where no intermediate leaves float32 every helper must agree with exact complex arithmetic "
+            "(key native-mismatch:<helper> otherwise).",
     "technique": "Lean 4 proof (Mathlib complex numbers, finite sums, matrices) + AST translation bridge + exact differential "
                  "correspondence + property oracle (exact adjointness on integer tensors)",
 }
@@ -45,12 +47,29 @@ ASSUMPTIONS = [
     "dyadic (|b|^2 a power of two: exact) or general (the float32 quotient is mapped to the unique fraction with denominator |b|^2 "
     "within 1e-6 relative — bucket cdiv/general-tol)",
     "modulus / root_sum_of_squares are compared on squares: the float32 root r is mapped to round(r*r) after checking |r - sqrt(round(r*r))| <= 1e-5*r",
-    "float range (overflow / underflow of squares) is outside the theorems; observations are reported as notes",
+    "float range (overflow / underflow of squares) is outside the theorems; the oracle reports the deviations of the current tree "
+    "as violations with keys float-range:<helper>:<class> and requires agreement with exact arithmetic (rel. 1e-3 of the complex "
+    "magnitude) for operand scales 1e-18..1e18 (common scale) / 1e-9..1e9 (mixed scales)",
 ]
 RULE = ("shapes (b, c, [s], h, w, 2) with b,c,s,h,w in 1..3 (c = 1 included), coil axis at every position, broadcasting pairs, zero "
         "divisors; non-trivial = more than one complex element and (for expand/reduce/cdot/rss) a summed/expanded axis of length >= 2; "
         "distinct = distinct protocol line / oracle case key")
-PENDING_FINDINGS: list[str] = []
+# float-range findings of the current tree (decided by the lead to be listed as `known:`); one key per (helper, failure class),
+# produced by the fixed probes FLOAT_RANGE_PROBES below, independent of VERIF_SEED
+PENDING_FINDINGS: list[str] = [
+    "float-range:complex_division:overflow-nan",
+    "float-range:complex_division:numerator-overflow-inf",
+    "float-range:complex_division:divisor-square-overflow-zero",
+    "float-range:complex_division:underflow-zero",
+    "float-range:complex_division:numerator-underflow-zero",
+    "float-range:complex_division:underflow-inaccurate",
+    "float-range:modulus:overflow-inf",
+    "float-range:modulus:underflow-zero",
+    "float-range:modulus:underflow-inaccurate",
+    "float-range:root_sum_of_squares:overflow-inf",
+    "float-range:root_sum_of_squares:underflow-zero",
+    "float-range:root_sum_of_squares:underflow-inaccurate",
+]
 
 
 def _prod(s):
@@ -467,47 +486,147 @@ def oracle(ctx: Ctx, deep: bool = False):
             for key, what, obs in _coil_case(T, base, dim, c, seed, fam):
                 yield Violation(key, what, {"op": "coil", "base": base, "dim": dim, "coils": c, "seed": seed, "family": fam,
                                             "law": key, "observed": obs})
-    # (3) magnitudes: inside the range where no intermediate square leaves float32 the helpers must agree with native
-    #     complex64 arithmetic and stay finite; outside it the deviations are recorded as notes (see MANIFEST note) -----
-    obs = {"cdiv_nan_or_inf": [], "cdiv_zero_for_nonzero_divisor": [], "modulus_inf": [], "modulus_zero": [], "cmul_nan": []}
-    for e in range(-44, 39):
-        for (ar, ai, br, bi) in ((1.0, 0.0, 1.0, 0.0), (3.0, 4.0, 1.0, -2.0), (0.0, 1.5, -2.0, 0.5)):
-            s = 10.0 ** e
-            a = torch.tensor([[ar * s, ai * s]])
-            b = torch.tensor([[br * s, bi * s]])
-            if not torch.isfinite(a).all() or not torch.isfinite(b).all() or (b == 0).all() or (a == 0).all():
-                continue
-            in_range = -18 <= e <= 18
-            ctx.count(("mag", e, ar, ai), True, bucket="oracle/magnitude/" + ("in-range" if in_range else "square-leaves-float32"))
-            try:
-                q, qn = T.complex_division(a, b), torch.view_as_real(_c(a) / _c(b))
-                mo, mn = T.modulus(a), _c(a).abs()
-                pr, pn = T.complex_multiplication(a, b), torch.view_as_real(_c(a) * _c(b))
-            except Exception as e:  # noqa: BLE001
-                yield Violation("helper-raises", f"a complex helper raises {err_name(e)} on a finite (1, 2) input",
-                                {"op": "magnitude", "fn": "cdiv", "a": a.tolist(), "b": b.tolist(), "native": [[0.0, 0.0]], "observed": repr(e)})
-                continue
-            if in_range:
-                for key, got, ref in (("cdiv", q, qn), ("modulus", mo, mn), ("cmul", pr, pn)):
-                    if not torch.isfinite(got).all() or not torch.allclose(got, ref, rtol=1e-4, atol=0.0):
-                        yield Violation(f"{key}-magnitude-in-range", f"{key} is not finite / differs from native complex64 at scale 1e{e}",
-                                        {"op": "magnitude", "fn": key, "a": a.tolist(), "b": b.tolist(), "observed": got.tolist(),
-                                         "native": ref.tolist()})
-            else:
-                if not torch.isfinite(q).all() and torch.isfinite(qn).all():
-                    obs["cdiv_nan_or_inf"].append(f"({ar}+{ai}i)e{e}/({br}+{bi}i)e{e} -> {q.tolist()[0]} (native {qn.tolist()[0]})")
-                if (q == 0).all() and (qn != 0).any():
-                    obs["cdiv_zero_for_nonzero_divisor"].append(f"({ar}+{ai}i)e{e}/({br}+{bi}i)e{e} -> 0 (native {qn.tolist()[0]})")
-                if torch.isinf(mo).any() and torch.isfinite(mn).all():
-                    obs["modulus_inf"].append(f"|({ar}+{ai}i)e{e}| -> inf (native {float(mn):.3g})")
-                if (mo == 0).all() and (mn != 0).all():
-                    obs["modulus_zero"].append(f"|({ar}+{ai}i)e{e}| -> 0 (native {float(mn):.3g})")
-                if torch.isnan(pr).any() and not torch.isnan(pn).any():
-                    obs["cmul_nan"].append(f"({ar}+{ai}i)e{e}*({br}+{bi}i)e{e} -> {pr.tolist()[0]} (native {pn.tolist()[0]})")
-    for kname, lst in obs.items():
-        if lst:
-            ctx.notes.append(f"float-range observation (not counted as violation; theorems are over R): {kname}: {len(lst)} probes, "
-                             f"e.g. {lst[0]}; {lst[-1]}")
+    # (3) float range.  (a) always on: while no intermediate product / square leaves the normal float32 range (operands
+    #     scaled by 1e-18 .. 1e18 at a common scale, 1e-9 .. 1e9 at mixed scales) every helper must agree with the exact
+    #     (float64) complex result — a deviation here is a NEW defect: key `native-mismatch:<helper>`.
+    #     (b) fixed, seed-independent probes, one minimal input per (helper, failure class): the squaring formulas leave
+    #     the representable range although operands and exact result are ordinary float32 numbers — keys
+    #     `float-range:<helper>:<class>` (listed as known findings by the lead).
+    #     (c) a sweep over all scales classifies every other deviation into the same classes (a class without a fixed probe
+    #     would surface as its own `float-range:` key) and records the counts as a note. ------------------------------------
+    for (helper, klass, a, b) in FLOAT_RANGE_PROBES:
+        ctx.count(("float-range-probe", helper, klass), True, bucket="oracle/float-range/fixed-probe")
+        got, exact, obs_class = _float_range_eval(T, helper, a, b)
+        if obs_class is not None:
+            yield Violation(f"float-range:{helper}:{obs_class}", _float_range_what(helper, obs_class, a, b, got, exact),
+                            {"op": "float-range", "helper": helper, "class": obs_class, "a": a, "b": b, "observed": got,
+                             "exact": exact})
+    fixed = {(h, k) for h, k, _, _ in FLOAT_RANGE_PROBES}
+    tally: dict[str, int] = {}
+    pats = ((1.0, 0.0), (3.0, 4.0), (0.0, 1.5), (1.0, -2.0), (-2.0, 0.5))
+    scales = [(e, e) for e in range(-37, 39)] + [(ea, eb) for ea in (-36, -27, -18, -9, -4, 0, 4, 9, 18, 27, 36)
+                                                 for eb in (-36, -27, -18, -9, -4, 0, 4, 9, 18, 27, 36) if ea != eb]
+    for (ea, eb) in scales:
+        in_range = (ea == eb and abs(ea) <= 18) or (abs(ea) <= 9 and abs(eb) <= 9)
+        for i, pa in enumerate(pats):
+            pb = pats[(i + 1) % len(pats)] if ea == eb else pats[(i + 2) % len(pats)]
+            a = [pa[0] * 10.0 ** ea, pa[1] * 10.0 ** ea]
+            b = [pb[0] * 10.0 ** eb, pb[1] * 10.0 ** eb]
+            for helper in FLOAT_RANGE_HELPERS:
+                if helper in ("modulus", "root_sum_of_squares") and ea != eb:
+                    continue
+                got, exact, obs_class = _float_range_eval(T, helper, a, b)
+                if exact is None:         # operands or exact result not ordinary float32 numbers: nothing is claimed
+                    continue
+                ctx.count(("float-range-sweep", helper, ea, eb, i), True,
+                          bucket="oracle/float-range/" + ("in-range" if in_range else "sweep"))
+                if obs_class is None:
+                    continue
+                if in_range:
+                    yield Violation(f"native-mismatch:{helper}",
+                                    f"{helper} differs from exact complex arithmetic although no intermediate leaves float32 "
+                                    f"(scales 1e{ea}, 1e{eb}): {got} vs {exact}",
+                                    {"op": "float-range", "helper": helper, "class": obs_class, "a": a, "b": b, "observed": got,
+                                     "exact": exact, "in_range": True})
+                else:
+                    tally[f"{helper}:{obs_class}"] = tally.get(f"{helper}:{obs_class}", 0) + 1
+                    if (helper, obs_class) not in fixed:
+                        yield Violation(f"float-range:{helper}:{obs_class}", _float_range_what(helper, obs_class, a, b, got, exact),
+                                        {"op": "float-range", "helper": helper, "class": obs_class, "a": a, "b": b,
+                                         "observed": got, "exact": exact})
+    if tally:
+        ctx.notes.append("float-range sweep (operands and exact result ordinary float32 numbers; theorems are over R): deviations by "
+                         "helper:class = " + ", ".join(f"{k}={v}" for k, v in sorted(tally.items())))
+
+
+# --------------------------------------------------------------------------------------------------
+# float-range probes (seed independent).  Operands are (re, im) pairs; for the binary helpers `a` is the dividend / first
+# factor / coil data and `b` the divisor / second factor / sensitivity; for modulus / rss only `a` is used (rss: two coils a, a).
+FLOAT_RANGE_HELPERS = ("complex_division", "complex_multiplication", "complex_dot_product", "reduce_operator", "expand_operator",
+                       "complex_mm", "modulus", "root_sum_of_squares")
+FLOAT_RANGE_PROBES = [
+    ("complex_division", "overflow-nan", [1e20, 0.0], [1e20, 0.0]),
+    ("complex_division", "numerator-overflow-inf", [3e19, 4e19], [1e19, 0.0]),
+    ("complex_division", "divisor-square-overflow-zero", [1.0, 0.0], [1e20, 0.0]),
+    ("complex_division", "underflow-zero", [1e-30, 0.0], [1e-30, 0.0]),
+    ("complex_division", "numerator-underflow-zero", [1e-37, 0.0], [1e-9, 0.0]),
+    ("complex_division", "underflow-inaccurate", [1e-37, 0.0], [1e-8, 0.0]),
+    ("modulus", "overflow-inf", [3e19, 4e19], None),
+    ("modulus", "underflow-zero", [3e-30, 4e-30], None),
+    ("modulus", "underflow-inaccurate", [3e-23, 4e-23], None),
+    ("root_sum_of_squares", "overflow-inf", [3e19, 4e19], None),
+    ("root_sum_of_squares", "underflow-zero", [3e-30, 4e-30], None),
+    ("root_sum_of_squares", "underflow-inaccurate", [3e-23, 4e-23], None),
+]
+_F32_TINY = 1.1754943508222875e-38      # smallest normal float32
+
+
+def _ordinary(t: torch.Tensor) -> bool:
+    """finite, and every non-zero entry in the normal float32 range"""
+    return bool(torch.isfinite(t).all() and ((t == 0) | (t.abs() >= _F32_TINY)).all())
+
+
+def _float_range_eval(T, helper, a, b):
+    """-> (observed list, exact list | None, failure class | None).  `exact` is the float64 complex result rounded to
+    float32; None when operands or exact result are not ordinary float32 numbers (nothing is claimed then)."""
+    ta = torch.tensor([a], dtype=torch.float32)
+    tb = torch.tensor([b], dtype=torch.float32) if b is not None else None
+    if not _ordinary(ta) or bool((ta == 0).all()) or (tb is not None and (not _ordinary(tb) or bool((tb == 0).all()))):
+        return None, None, None
+    za = _c(ta).to(torch.complex128)
+    zb = _c(tb).to(torch.complex128) if tb is not None else None
+    R = lambda z: torch.view_as_real(z).float()  # noqa: E731
+    if helper == "complex_division":
+        fn, exact = (lambda: T.complex_division(ta, tb)), R(za / zb)
+    elif helper == "complex_multiplication":
+        fn, exact = (lambda: T.complex_multiplication(ta, tb)), R(za * zb)
+    elif helper == "complex_dot_product":
+        fn, exact = (lambda: T.complex_dot_product(ta, tb, [0]).reshape(1, 2)), R(za.conj() * zb)
+    elif helper == "reduce_operator":
+        fn, exact = (lambda: T.reduce_operator(ta, tb, dim=0).reshape(1, 2)), R(zb.conj() * za)
+    elif helper == "expand_operator":
+        fn, exact = (lambda: T.expand_operator(ta[0], tb, dim=0).reshape(1, 2)), R(zb * za)
+    elif helper == "complex_mm":
+        fn = lambda: torch.view_as_real(T.complex_mm(_c(ta).reshape(1, 1), _c(tb).reshape(1, 1))).reshape(1, 2)  # noqa: E731
+        exact = R(za * zb)
+    elif helper == "modulus":
+        fn, exact = (lambda: T.modulus(ta).reshape(1, 1)), za.abs().float().reshape(1, 1)
+    elif helper == "root_sum_of_squares":
+        fn, exact = (lambda: T.root_sum_of_squares(torch.cat([ta, ta]), dim=0).reshape(1, 1)), (2 * za.abs() ** 2).sqrt().float().reshape(1, 1)
+    else:
+        raise ValueError(helper)
+    if not _ordinary(exact):
+        return None, None, None
+    try:
+        got = fn()
+    except Exception as e:  # noqa: BLE001
+        return f"raises {err_name(e)}", exact.reshape(-1).tolist(), "raises"
+    klass = None
+    if torch.isnan(got).any():
+        klass = "overflow-nan"
+    elif torch.isinf(got).any():
+        klass = "numerator-overflow-inf" if helper == "complex_division" else "overflow-inf"
+    elif bool((got == 0).all()) and bool((exact != 0).any()):
+        klass = "underflow-zero"
+        if helper == "complex_division":
+            den = tb[..., 0] ** 2 + tb[..., 1] ** 2            # the float32 denominator of the documented formula
+            klass = ("divisor-square-overflow-zero" if torch.isinf(den).any()
+                     else "underflow-zero" if bool((den == 0).all()) else "numerator-underflow-zero")
+    elif float((got - exact).abs().max()) > 1e-3 * float(exact.abs().max()):
+        lo = float(exact.abs().max()) < 1.0 or helper in ("modulus", "root_sum_of_squares")
+        klass = "underflow-inaccurate" if lo or _has_small_operand(ta, tb) else "overflow-inaccurate"
+    return got.reshape(-1).tolist(), exact.reshape(-1).tolist(), klass
+
+
+def _has_small_operand(ta, tb) -> bool:
+    vals = [float(v) for t in (ta, tb) if t is not None for v in t.reshape(-1).tolist() if v != 0.0]
+    return min(abs(v) for v in vals) < 1e-9
+
+
+def _float_range_what(helper, klass, a, b, got, exact) -> str:
+    arg = f"{a}" if b is None else f"{a}, {b}"
+    return (f"{helper}({arg}) = {got} but the exact result {exact} is an ordinary float32 number ({klass}: the squares / products "
+            f"of the formula leave the float32 range)")
 
 
 def replay(rep: dict) -> bool:
@@ -527,11 +646,9 @@ def replay(rep: dict) -> bool:
             except ValueError:
                 return False
             return True
-        if op == "magnitude":
-            a, b = torch.tensor(rep["a"]), torch.tensor(rep["b"])
-            got = {"cdiv": lambda: T.complex_division(a, b), "modulus": lambda: T.modulus(a),
-                   "cmul": lambda: T.complex_multiplication(a, b)}[rep["fn"]]()
-            return not torch.allclose(got, torch.tensor(rep["native"]), rtol=1e-4, atol=0.0)
+        if op == "float-range":
+            _, _, klass = _float_range_eval(T, rep["helper"], rep["a"], rep["b"])
+            return klass is not None if rep.get("in_range") else klass == rep["class"]
     except Exception:  # noqa: BLE001
         return True
     return True
